@@ -130,6 +130,24 @@ var RequestFrames = []string{
 	"server.(*grpcServer).", "server.(*httpCache).", "casblob.GetLegacyZstdReadCloser", "casblob.WriteAndClose",
 }
 
+var baseline = map[string]bool{}
+
+// SetBaseline remembers the goroutines that are inside request frames right
+// now (left behind by earlier cases); they are not attributed to later requests.
+func SetBaseline() {
+	baseline = map[string]bool{}
+	for _, g := range strings.Split(stack.AllStacks(), "\n\n") {
+		for _, f := range RequestFrames {
+			if strings.Contains(g, f) {
+				if i := strings.IndexByte(g, '['); i > 0 {
+					baseline[g[:i]] = true
+				}
+				break
+			}
+		}
+	}
+}
+
 // LeakedRequestGoroutines returns goroutines still inside request frames,
 // stable over the polling window (same dump text on consecutive polls).
 func LeakedRequestGoroutines(max time.Duration) []string {
@@ -141,6 +159,9 @@ func LeakedRequestGoroutines(max time.Duration) []string {
 		for _, g := range strings.Split(stack.AllStacks(), "\n\n") {
 			for _, f := range RequestFrames {
 				if strings.Contains(g, f) {
+					if i := strings.IndexByte(g, '['); i > 0 && baseline[g[:i]] {
+						break
+					}
 					cur = append(cur, g)
 					break
 				}
